@@ -115,8 +115,8 @@ def c09(tier, vseed):
 def c20(tier, vseed):
     os.makedirs(os.path.join(OUT, "C20"), exist_ok=True)
     quick = tier.startswith("quick")
-    nseeds = 64 if quick else int(os.environ.get("VERIF_E2_C20_SEEDS", "1024"))
-    sets = 6 if quick else 24
+    nseeds = 64 if quick else int(os.environ.get("VERIF_E2_C20_SEEDS", "512"))
+    sets = 6 if quick else 12
     r, v, out = batch("c20", [], ["c20", vseed, 0, sets, 24], 0, nseeds, 3000, "C20")
     j = {"engine": "E2", "executions": 0 if r.get("timeout") else nseeds, "point_sets_per_execution": sets, "batch": r,
          "samples": [l for l in out.splitlines() if l.startswith("E2-OK")][:2],
